@@ -5,7 +5,7 @@ import ast
 
 from ..index import Program
 from ..gti import new_interp, call_method, construct, read_path, Env, Unsupported
-from ..terms import T, C, sym, show, binop, un, length, NONE
+from ..terms import T, C, sym, show, binop, un, length, NONE, FALSE as FALSE_
 from ..linear import Lin, linearize
 from ..bits import data_bits_be, BitCtx, norm_bits, buffer_pos
 from .. import rules as R
@@ -95,7 +95,9 @@ def helper_semantics(ck, P, h, buf, idx, L):
         if not D.feasible(facts):
             continue
         if not (val.k == "tuple" and len(val.a[0]) == 2 and val.a[0][0].k == "const"):
-            ck.unknown("P-MUST", fn, "result is a (code, index) pair with a constant code", show(val)[:80])
+            # another private contract between the parser and its helper: the one-iteration step relation of the parser
+            # (helpers inlined) decides the same conditions, nothing is claimed about the helper alone
+            ck.notes.append(f"helper exit classification skipped: {fn} does not return a (code, index) pair ({show(val)[:60]})")
             return
         code, nidx = val.a[0][0].a[0], val.a[0][1]
         q, tm = vs.get("analysis_queue"), vs.get("tm_list")
@@ -407,7 +409,32 @@ def scan_step(ck, P, f, body, drain_st, scan, bname, buf, idx, L):
         return
     for e in frame["breaks"]:
         outcomes.append(("exit", e))
-    nxt = ([b] if not b.dead else []) + frame.get("continued", [])
+    nxt = []
+    for e in ([b] if not b.dead else []) + frame.get("continued", []):
+        # A parser may signal "stop" through its loop variable (index := None) and leave at the next evaluation of the
+        # loop test instead of through break: where the index has become None the state goes through the test here and
+        # counts as an exit of THIS iteration.  Where it still is an index, the next test belongs to the next iteration
+        # (which is this same analysis from an arbitrary index).
+        iv_ = e.vars.get(iname)
+        c_none = truthy(binop("is", iv_, NONE)) if iv_ is not None else FALSE_
+        if D.is_const(c_none, False):
+            nxt.append(e)
+            continue
+        e_go = e.clone()
+        e_go.add_fact(un("not", c_none)); e_go.pc.append(un("not", c_none))
+        if not e_go.dead:
+            nxt.append(e_go)
+        e_stop = e.clone()
+        e_stop.add_fact(c_none); e_stop.pc.append(c_none)
+        if not e_stop.dead:
+            c2 = truthy(it2.ev(scan.test, e_stop.clone(), f.module, f))
+            if not D.is_const(c2, False) and D.prove(e_stop.facts, un("not", c2))[0] != "proved":
+                ck.unknown("P-MUST", fn, "an iteration that sets the index to None leaves the loop at the next test", show(c2)[:100])
+                return
+            if scan.orelse:
+                it2.block(scan.orelse, e_stop, f.module, f, [])
+            if not e_stop.dead:
+                outcomes.append(("exit", e_stop))
     # an iteration that leaves the loop runs on through the statements behind the loop to the function's return: what counts
     # is the queue, the results and the returned value there (a tail may be re-queued behind the loop as well as inside it)
     after = body[body.index(scan) + 1:]
@@ -487,9 +514,13 @@ def scan_step(ck, P, f, body, drain_st, scan, bname, buf, idx, L):
     table = next(iter(tables))
     okt = table.k == "call" and table.a[0] == "listcomp" and len(table.a[1]) == 2 and table.a[1][0] == ids_in and D.is_const(table.a[1][1], None) is False \
         and isinstance(table.a[1][1].a[0], str) and table.a[1][1].a[0].replace(" ", "").endswith(".raw()")
+    if not okt and table.k == "call" and table.a[0] == "genexp" and len(table.a[1]) == 1 and isinstance(table.a[1][0].a[0], str):
+        # the same table written as a generator (fed to set() / frozenset() / tuple())
+        import re as _re
+        okt = bool(_re.match(rf"^\(?\s*(\w+)\.raw\(\)\s+for\s+\1\s+in\s+{_re.escape(idsname)}\s*\)?$", table.a[1][0].a[0]))
     if not okt:
         oc = R.opaque_calls(table)
-        if table.k != "call" or table.a[0] != "listcomp":
+        if table.k != "call" or table.a[0] not in ("listcomp", "genexp"):
             ck.unknown("D-TABLE", fn, "registered ids are the raw() words of the given packet ids", f"table is {show(table)[:100]}")
         else:
             probs.append(f"the table is {show(table)[:100]}, reference [p.raw() for p in {idsname}]")
